@@ -70,7 +70,8 @@ pub mod lab {
     pub const CLONE_MAKES_UNIQUE: u32 = 53;
     pub const DROP_WHILE_UNWINDING: u32 = 54;
     pub const MAKEMUT_STORED: u32 = 55;
-    pub const NAMES: [&str; 56] = [
+    pub const ALLOC_FAILURE_SURVIVED: u32 = 56;
+    pub const NAMES: [&str; 57] = [
         "group>=2_collected",
         "group>=3_collected",
         "zero_count_death_with_records",
@@ -127,6 +128,7 @@ pub mod lab {
         "payload_clone_removed_every_other_handle_to_the_object",
         "handle_dropped_while_the_thread_is_unwinding",
         "make_mut_on_a_stored_handle",
+        "injected_allocation_failure_handled_without_abort",
     ];
 }
 
